@@ -4,7 +4,7 @@ import z3
 
 from pyvc import trace as T
 from pyvc.ops import FALSE, TRUE
-from pyvc.values import SList, ObjRec, SElem, SEnum, SNone, SObj, SOpt, SStr, fresh_int
+from pyvc.values import VAL, SList, ObjRec, SElem, SEnum, SNone, SObj, SOpt, SStr, fresh_int
 from pyvc.verify import Obl
 
 from . import tprops as P
@@ -337,8 +337,22 @@ def _run_task_never_swallowed(ctx):
     return [("", TRUE if handed else z3.Not(g))]
 
 
+def _run_task_transient_routed(ctx):
+    """C14 (a transient failure is retried, not fatal): when the attempt ends with a verification that is still pending
+    (TransientVerificationError, a transient error by construction), the handler hands the error to handle_exception -- the
+    retry decision with its budget --, never to complete_with_error (terminal on the first occurrence)."""
+    if ctx.exc is not None:
+        return []
+    failed = [e for e, _ in T.flat(ctx.st.effects) if e.kind == "attempt_failed" and e.data.get("transient")]
+    if not failed:
+        return []
+    ds = [d.data["to"] for d in _delegates(ctx)]
+    return [("goes-to-the-retry-decision", z3.BoolVal("handle_exception" in ds)), ("not-failed-terminally", z3.BoolVal("complete_with_error" not in ds))]
+
+
 def run_task():
     obls = [
+        Obl("C14/transient-routed/RunTask.handle", _run_task_transient_routed, when="any"),
         Obl("C05/T5/RunTask.handle", _run_task_never_swallowed, when="any"),
         Obl("C02/guard/RunTask", _run_task_guard_false, when="any"),
         Obl("C02/gate/RunTask", _run_task_gate, when="any"),
@@ -699,7 +713,12 @@ def _exception_contract(ctx):
                 snap = e.data["snap"]
                 goals.append((f"txn{t.tid}.context-merged", z3.Implies(z3.Select(drec.has, kk),
                               z3.And(z3.Select(snap["ctx_has"], kk), z3.Select(snap["ctx_vals"], kk) == z3.Select(drec.vals, kk)))))
-                ld = e.data["loaded"]
+                ld = e.data.get("loaded") or {}
+                # progress kept: the update goes onto a row re-read inside the retried closure -- a copy loaded before the attempt
+                # ran loses the compare-and-swap to any concurrent writer, on every retry, and the progress with it
+                goals.append((f"txn{t.tid}.context-saved-on-a-fresh-load", z3.BoolVal(ld.get("how") == "retrieve_stage" and "ctx_has" in ld)))
+                if "ctx_has" not in ld:
+                    continue
                 goals.append((f"txn{t.tid}.context-kept", z3.Implies(z3.And(z3.Not(z3.Select(drec.has, kk)), z3.Select(ld["ctx_has"], kk)),
                               z3.And(z3.Select(snap["ctx_has"], kk), z3.Select(snap["ctx_vals"], kk) == z3.Select(ld["ctx_vals"], kk)))))
         elif p.data["cls"] == "CompleteTask":
@@ -1421,7 +1440,9 @@ def _cancel_stage_post(ctx):
 
 def cancel_stage_registry():
     reg = run_task_registry()
-    reg.contracts["stabilize.resilience.cancellation:cancel_task"] = lambda I, a, k: SNone
+    # cancel_task(task_id) -> bool: True when the task is executing in this process and has been told to stop (assumed: any answer)
+    reg.contracts["stabilize.resilience.cancellation:cancel_task"] = lambda I, a, k: __import__("pyvc.values", fromlist=["SBool"]).SBool(
+        __import__("pyvc.values", fromlist=["fresh_bool"]).fresh_bool("task_runs_in_this_process"))
     return reg
 
 
@@ -1437,6 +1458,7 @@ def cancel_stage():
         Obl("C01/T6/CancelStage", P.t6_single_commit(), when="any"),
         Obl("C01/T7/CancelStage", P.t7_no_split, when="any"),
         Obl("C06/T3/CancelStage", P.t3_legal_write(), when="any"),
+        Obl("C06/stage-task-inv/CancelStage", P.establishes_stage_task_inv, when="any"),
         Obl("C18/only-signal-wakes/CancelStage", _cancel_stage_post, when="any"),
     ]
     return handler_unit("*", "L2/CancelStage", H + "cancel_stage:CancelStageHandler", "CancelStage", obls, registry=cancel_stage_registry())
@@ -2791,7 +2813,21 @@ def _should_skip_post(ctx):
     """a malformed stageEnabled condition never crashes the stage start: _should_skip returns a bool and never raises."""
     if ctx.exc is not None:
         return [("condition-errors-never-escape", FALSE)]
-    return [("returns", TRUE)]
+    # ... and evaluating the condition has no side effect on the stage: its context (what the tasks will read, what the next
+    # save persists) and its outputs are exactly what they were -- the evaluation context is a copy
+    I = ctx.I
+    stage = ctx.args["stage"]
+    goals = [("returns", TRUE)]
+    k = fresh_int("ck")
+    for f in ("context", "outputs"):
+        d = I.st.dicts[I.getattr(stage, f).did]
+        h0 = z3.Array(f"stage.{f}.has", z3.IntSort(), z3.BoolSort())
+        v0 = z3.Array(f"stage.{f}.vals", z3.IntSort(), VAL)
+        if d.kind != "sym":
+            goals.append((f"stage-{f}-untouched", FALSE))
+            continue
+        goals.append((f"stage-{f}-untouched", z3.And(z3.Select(d.has, k) == z3.Select(h0, k), z3.Implies(z3.Select(h0, k), z3.Select(d.vals, k) == z3.Select(v0, k)))))
+    return goals
 
 
 def should_skip_unit():
@@ -2867,6 +2903,10 @@ def reset_units():
     for which, fn, extra in (("retry", "reset_stage_for_retry", []), ("skipped", "reset_stage_to_skipped", [("end_time", ("int",))]),
                              ("succeeded", "reset_stage_to_succeeded", [("end_time", ("int",))]), ("terminal", "reset_stage_to_terminal", [("end_time", ("int",))])):
         obls = [Obl(f"C15/reset-post/{fn}", _reset_post(which), when="any")]
+        if which in ("terminal", "succeeded"):
+            # C06 (completed is final): closing a stage settles its RUNNING tasks only -- a task that had already completed
+            # (FAILED_CONTINUE, STOPPED, CANCELED ...) keeps the status it completed with
+            obls.append(Obl(f"C06/completed-task-kept/{fn}", _reset_post(which), when="any"))
         if which == "retry":
             obls.append(Obl("C02/rearm/reset_stage_for_retry", _reset_post(which), when="any"))
             obls.append(Obl("C16/current-iteration/reset-clears-outputs", _reset_post(which), when="any"))
